@@ -66,6 +66,23 @@ NAME: /[a-z]+/
 NUM: /[0-9]+/
 %ignore " "
 ''', ['vec', 'v', '1', '22', ';', '[', ']', ',']),
+    # two alternatives with the same alias and the same kept symbols (they differ in filtered tokens only), another one between them
+    'dup': ('''
+start: value+ ";"
+value: NUM -> number | NAME -> var | "+" NUM -> number | "(" NAME ")" -> var
+NAME: /[a-z]+/
+NUM: /[0-9]+/
+%ignore " "
+''', ['7', 'x', '+', ';', '(', ')']),
+    # a filtered terminal without a pattern (%declare, produced by a post-lexer), covered by term_subs
+    'decl': ('''
+start: item (_SEP item)* ";"
+item: NAME | "<" start ">"
+NAME: /[a-z]+/
+COMMA: ","
+%declare _SEP
+%ignore " "
+''', ['a', ',', ';', 'b', '<', '>']),
     'json': ('''
 ?start: value
 ?value: dict | list | STR | NUM | "true" -> t | "null" -> n
@@ -84,10 +101,19 @@ if P:
     from lark.exceptions import UnexpectedInput
     SRC, LEXEMES = GRAMMARS[P['g']]
     PARSER = P.get('parser', 'lalr')
-    LARK = Lark(SRC, parser=PARSER, maybe_placeholders=False)
-    RECON = Reconstructor(LARK)
     from lark.lexer import Lexer, Token
-    _BL = hs.basic_lexer_of(Lark(SRC, parser='lalr', lexer='basic', maybe_placeholders=False))
+
+    class CommaToSep:
+        always_accept = ('COMMA',)
+
+        def process(self, stream):
+            for t in stream:
+                yield Token.new_borrow_pos('_SEP', t.value, t) if t.type == 'COMMA' else t
+    LOPTS = {'postlex': CommaToSep()} if P['g'] == 'decl' else {}
+    ROPTS = {'term_subs': {'_SEP': lambda sym: ','}} if P['g'] == 'decl' else {}
+    LARK = Lark(SRC, parser=PARSER, maybe_placeholders=False, **LOPTS)
+    RECON = Reconstructor(LARK, **ROPTS)
+    _BL = hs.basic_lexer_of(Lark(SRC, parser='lalr', lexer='basic', maybe_placeholders=False, **LOPTS))
     TYPES = [next(iter(hs.lex_tokens(_BL, lx))).type for lx in LEXEMES]
 
     class LazyLexemes(Lexer):
@@ -105,7 +131,7 @@ if P:
                 hs.CUR['kinds'].append(j)
                 yield Token(TYPES[j], LEXEMES[j], k)
                 k += 1
-    FILTER = Lark(SRC, parser='lalr', lexer=LazyLexemes, maybe_placeholders=False)
+    FILTER = Lark(SRC, parser='lalr', lexer=LazyLexemes, maybe_placeholders=False, **LOPTS)
     L = P['L']
     K = len(LEXEMES)
     PIN = P.get('pin')
@@ -150,7 +176,7 @@ def _body(rec, cs):
         # this one (the per-rule matchers are built lazily and cached, so the order of use matters); histories of length 2, the first
         # element taken from the inputs this slice has accepted so far
         for prev in SEEN[-25:]:
-            r2 = Reconstructor(LARK)
+            r2 = Reconstructor(LARK, **ROPTS)
             r2.reconstruct(LARK.parse(prev))
             out2 = r2.reconstruct(LARK.parse(text))
             rec['count']['pair_histories'] = rec['count'].get('pair_histories', 0) + 1
@@ -180,6 +206,8 @@ def plan(tier, seed):
     for g, (_, lex) in GRAMMARS.items():
         k = len(lex)
         for parser in ('lalr', 'earley'):
+            if g == 'decl' and parser == 'earley':
+                continue        # a post-lexer needs the basic or contextual lexer
             Lg = 5 if quick else 7
             if g in ('show', 'adj') and parser == 'lalr':
                 Lg += 1         # 'a = a + a ;' has six lexemes
@@ -193,7 +221,7 @@ def plan(tier, seed):
         'functions_encoded': ['lark.reconstruct.Reconstructor.reconstruct/_reconstruct', 'WriteTokensTransformer', 'lark.tree_matcher.TreeMatcher._build_recons_rules/match_tree', 'is_discarded_terminal',
                               'lark.utils.is_id_continue'],
         'bounds': {'lexemes': '5 quick; 7 thorough; 4 with the Reconstructor itself traced', 'grammars': list(GRAMMARS)},
-        'outside_bounds': ['grammars outside the supported class', 'term_subs', 'postproc', 'longer inputs'],
+        'outside_bounds': ['grammars outside the supported class', 'postproc', 'longer inputs'],
         'stubs_and_assumes': ['texts are lexeme-composed'],
     }
     return {'slices': slices, 'meta': meta}
